@@ -74,7 +74,7 @@ pub fn plan(prop: &str, tier: &str) -> Plan {
     };
     judge.lenient_links = matches!(prop, "C06" | "C07" | "C08" | "C11");
     let core_q = vec![(2, 3), (3, 5), (4, 6), (3, 7)];
-    let core_t = vec![(2, 3), (3, 5), (4, 6), (3, 8), (4, 8), (5, 6)];
+    let core_t = vec![(2, 3), (3, 5), (4, 6), (3, 8), (4, 8), (5, 6), (5, 7), (6, 6)];
     let bounds = match prop {
         "C07" => {
             profile.tree_ops = true;
